@@ -33,7 +33,8 @@ Fin(x) == x.s # 2
 (* ---- operation classes --------------------------------------------------------------------- *)
 ExactOps == {"view", "transpose", "t", "permute", "select", "slice", "unsqueeze", "expand", "cat", "stack", "split",
              "slice_step", "select_neg", "squeeze", "flatten", "add_tensor", "mul_t1", "div_t1",
-             "neg", "relu", "clone", "detach", "abs", "add1", "sum", "gelu", "contiguous", "lt", "copy_", "div_tensor", "roundtrip", "to_device"}
+             "neg", "relu", "clone", "detach", "abs", "add1", "sum", "gelu", "contiguous", "lt", "copy_", "div_tensor", "roundtrip", "to_device",
+             "sum_kw", "clamp_kw", "gelu_kw", "mean_kw"}
 ContractOps == {"matmul", "bmm", "linear"}
 RescaleOps == {"mul", "div", "to", "mul_t", "div_t", "rmul"}
 RequantOps == {"softmax", "where"}
